@@ -798,6 +798,8 @@ func c17Check(ctx *Ctx, res *CaseResult, dir string, p *c17Payload, regen *Rand)
 	}()
 	veneerDir := filepath.Join(dir, "c17veneers")
 	must(os.MkdirAll(veneerDir, 0o755))
+	var pendingRule *RuleSpec
+	pendingPkg := ""
 	for i := 0; i < n; i++ {
 		var rs RuleSpec
 		var pkg string
@@ -956,6 +958,35 @@ func c17Check(ctx *Ctx, res *CaseResult, dir string, p *c17Payload, regen *Rand)
 							}
 						}
 					}
+				}
+			}
+			// a consistent merge_into whose source has a homonym under case folding earlier in
+			// the list of builders: this step renames an earlier builder to a case variant of
+			// the source's name, the merge itself is the next step (sources are looked up by
+			// exact name)
+			if pendingRule != nil {
+				rs, pkg = *pendingRule, pendingPkg
+				pendingRule = nil
+			} else if sr := regen.Side("merge-source-homonym"); rs.Scope == "builder" && rs.Kind == "merge_into" && !rs.Misconfigured && sr.Chance(1, 2) && i+1 < n {
+				for _, bv := range bvs {
+					if bv.Pkg != pkg {
+						continue
+					}
+					if bv.Name == rs.Source || bv.Name == rs.SelA {
+						break // only a builder that comes before both is of interest
+					}
+					variant := strings.ToUpper(rs.Source)
+					if variant == rs.Source {
+						variant = strings.ToLower(rs.Source)
+					}
+					if variant == rs.Source || len(bv.Options) == 0 {
+						continue
+					}
+					merge, mergePkg := rs, pkg
+					pendingRule, pendingPkg = &merge, mergePkg
+					rs = RuleSpec{Scope: "builder", Kind: "rename", SelKind: "by_name", SelA: bv.Name, As: variant}
+					ctx.Count("merge_into whose source has a case-folded homonym", 1)
+					break
 				}
 			}
 			rs.Lang = "all"
